@@ -26,6 +26,7 @@ pub enum Rd {
     Cname,
     NsOut,   // NS ns.other.
     NsIn,    // NS d.c.z. (in bailiwick below cut c)
+    NsBA,    // NS b.a.z. (in zone: below cut a, or ordinary data)
     Ds,
     Soa(u32),
 }
@@ -36,7 +37,7 @@ impl Rd {
             Rd::A(_) => Rtype::A,
             Rd::Txt(_) => Rtype::TXT,
             Rd::Cname => Rtype::CNAME,
-            Rd::NsOut | Rd::NsIn => Rtype::NS,
+            Rd::NsOut | Rd::NsIn | Rd::NsBA => Rtype::NS,
             Rd::Ds => Rtype::DS,
             Rd::Soa(_) => Rtype::SOA,
         }
@@ -48,6 +49,7 @@ impl Rd {
             Rd::Cname => ZoneRecordData::Cname(Cname::new(sname("tgt.example."))),
             Rd::NsOut => ZoneRecordData::Ns(Ns::new(sname("ns.other."))),
             Rd::NsIn => ZoneRecordData::Ns(Ns::new(sname("d.c.z."))),
+            Rd::NsBA => ZoneRecordData::Ns(Ns::new(sname("b.a.z."))),
             Rd::Ds => ZoneRecordData::Ds(Ds::new(7, domain::base::iana::SecurityAlgorithm::ED25519, domain::base::iana::DigestAlgorithm::SHA256, Bytes::from_static(&[0xAB; 32])).unwrap()),
             Rd::Soa(serial) => ZoneRecordData::Soa(Soa::new(sname("ns.other."), sname("hm.other."), (*serial).into(), Ttl::from_secs(10), Ttl::from_secs(11), Ttl::from_secs(12), Ttl::from_secs(13))),
         }
@@ -65,6 +67,7 @@ impl Rd {
             Rd::Cname => n("tgt.example."),
             Rd::NsOut => n("ns.other."),
             Rd::NsIn => n("d.c.z."),
+            Rd::NsBA => n("b.a.z."),
             Rd::Ds => {
                 let mut v = vec![0, 7, 15, 2];
                 v.extend_from_slice(&[0xAB; 32]);
@@ -165,6 +168,19 @@ impl Content {
     }
 }
 
+/// In-zone names the NS records of `cut` point to.
+pub fn ns_targets(c: &Content, cut: &RelName) -> Vec<RelName> {
+    let mut v = Vec::new();
+    for r in c.rrset(cut, Rtype::NS) {
+        match r {
+            Rd::NsIn => v.push(rel("d.c")),
+            Rd::NsBA => v.push(rel("b.a")),
+            _ => {}
+        }
+    }
+    v
+}
+
 // ------------------------------------------------------------- reference
 
 #[derive(Clone, Debug, PartialEq, Eq, PartialOrd, Ord, Hash)]
@@ -230,11 +246,11 @@ pub fn resolve(c: &Content, qname: &RelName, qtype: Rtype) -> Expected {
             let ns = c.rrset(&anc, Rtype::NS);
             let mut authority = set_of(&anc, &ns);
             authority.extend(set_of(&anc, &c.rrset(&anc, Rtype::DS)));
-            // glue: addresses of in-zone NS targets
+            // glue: every address record the zone holds for an in-zone NS
+            // target, wherever it lives (RFC 1034 4.3.2 step 3b, RFC 9471)
             let mut glue_min = BTreeSet::new();
-            if ns.contains(&Rd::NsIn) {
-                let t = rel("d.c");
-                glue_min = set_of(&t, &c.rrset(&t, Rtype::A));
+            for t in ns_targets(c, &anc) {
+                glue_min.extend(set_of(&t, &c.rrset(&t, Rtype::A)));
             }
             return Expected { kind: Kind::Referral, rcode: 0, aa: false, answer: BTreeSet::new(), authority, additional_min: glue_min.clone(), additional_max: glue_min, qclass: if i == qname.len() { "at-cut" } else { "below-cut" } };
         }
@@ -421,8 +437,7 @@ fn types_of(set: &BTreeSet<Rd>) -> Vec<Rtype> {
 
 pub fn glue_for(c: &Content, cut: &RelName) -> Vec<StoredRecord> {
     let mut v = Vec::new();
-    if c.rrset(cut, Rtype::NS).contains(&Rd::NsIn) {
-        let t = rel("d.c");
+    for t in ns_targets(c, cut) {
         for r in c.rrset(&t, Rtype::A) {
             v.push(record_of(&t, &r));
         }
@@ -470,7 +485,7 @@ pub fn build_parsed(c: &Content) -> Result<Zone, String> {
     let mut zf = domain::zonetree::parsed::Zonefile::new(sname("z."), Class::IN);
     // SOA first (as in a zone file), then the rest with NS/DS before other data
     let mut recs: Vec<(RelName, Rd)> = c.records().into_iter().collect();
-    recs.sort_by_key(|(n, r)| (!matches!(r, Rd::Soa(_)), !matches!(r, Rd::NsOut | Rd::NsIn | Rd::Ds), n.clone(), r.clone()));
+    recs.sort_by_key(|(n, r)| (!matches!(r, Rd::Soa(_)), !matches!(r, Rd::NsOut | Rd::NsIn | Rd::NsBA | Rd::Ds), n.clone(), r.clone()));
     for (n, r) in recs {
         zf.insert(record_of(&n, &r)).map_err(|e| format!("parsed insert: {e}"))?;
     }
@@ -497,6 +512,12 @@ pub async fn node_for(apex: &dyn WritableZoneNode, name: &RelName) -> Option<Box
 
 /// Make the node `name` hold exactly `set` (of content `c`) through the write interface.
 pub async fn write_name(apex: &dyn WritableZoneNode, c: &Content, old: Option<&Content>, name: &RelName) {
+    write_name_opt(apex, c, old, name, false).await
+}
+
+/// `churn`: an RRset that is to be removed is first replaced by other data
+/// and then removed, within the same version.
+pub async fn write_name_opt(apex: &dyn WritableZoneNode, c: &Content, old: Option<&Content>, name: &RelName, churn: bool) {
     let set = c.names.get(name).cloned().unwrap_or_default();
     let oldset = old.and_then(|o| o.names.get(name).cloned()).unwrap_or_default();
     if set.is_empty() && oldset.is_empty() {
@@ -510,6 +531,10 @@ pub async fn write_name(apex: &dyn WritableZoneNode, c: &Content, old: Option<&C
     // remove types no longer present
     for t in types_of(&oldset) {
         if c.rrset(name, t).is_empty() {
+            if churn && (t == Rtype::A || t == Rtype::TXT) {
+                let other = if t == Rtype::A { Rd::A(250) } else { Rd::Txt("churn".into()) };
+                node.update_rrset(rrset_of(&[other])).await.unwrap();
+            }
             node.remove_rrset(t).await.unwrap();
         }
     }
